@@ -15,7 +15,7 @@
        their accuracy (validated by the correspondence only). *)
 From Coq Require Import List ZArith Bool Arith.
 Import ListNotations.
-Require Import MD.Gen.HbondTables.
+Require Import MD.Gen.HbondTables MD.Gen.HbondFormulas.
 Local Open Scope Z_scope.
 
 (* ================================================================= constants *)
@@ -24,14 +24,19 @@ Local Open Scope Z_scope.
    when the two differ *)
 Record consts := mkConsts {
   c_bh_cut : Z * Z; c_bh_ang : Z * Z; c_wn_cut : Z * Z; c_wn_const : Z * Z;
-  c_ks_ecut : Z * Z; c_ks_ca2 : Z * Z; c_ks_coupling : Z * Z; c_ks_signs : list Z;
-  c_ks_nh : Z * Z; c_ks_floor : Z * Z }.
+  c_ks_ecut : Z * Z; c_ks_ca2 : Z * Z;
+  c_ks_terms : list ((Z * Z) * (ks_site * ks_site));   (* energy = sum coefficient / distance(site, site) *)
+  c_ks_nh : Z * Z; c_ks_clamp_test : Z * Z; c_ks_clamp_value : Z * Z }.
+(* the energy terms and the clamp come from the translation of ks_donor_acceptor (Gen/HbondFormulas.v) *)
 Definition gen_consts : consts :=
   mkConsts bh_distance_cutoff bh_angle_cutoff wn_distance_cutoff wn_angle_const ks_energy_cutoff
-           ks_minimal_ca_distance2 ks_coupling ks_coupling_signs ks_nh_length ks_energy_floor.
+           ks_minimal_ca_distance2 (combine ks_coupling_packed ks_packed) ks_nh_length ks_clamp_test ks_clamp_value.
+(* documented: E = 0.42 * 0.2 * 33.2 kcal nm / mol * (1/r_ON + 1/r_CH - 1/r_OH - 1/r_CN), floor -9.9 *)
 Definition doc_consts : consts :=
-  mkConsts (25, 100) (120, 1) (33, 100) (44, 1000000) (-5, 10) (81, 100) (27888, 10000) [-1; -1; 1; 1]
-           (1, 10) (-99, 10).
+  mkConsts (25, 100) (120, 1) (33, 100) (44, 1000000) (-5, 10) (81, 100)
+           [((27888, 10000), (KS_N, KS_O)); ((27888, 10000), (KS_H, KS_C));
+            ((-27888, 10000), (KS_H, KS_O)); ((-27888, 10000), (KS_N, KS_C))]
+           (1, 10) (-99, 10) (-99, 10).
 
 (* ================================================================= topology: _get_bond_triplets *)
 Inductive elem := EN | EO | EH | EC | EX.
